@@ -296,6 +296,43 @@ func (c *Ctx) tlKindTable() {
 		ok32 := len(callsTo(f, "encoding/binary.littleEndian.PutUint32"))+len(callsTo(f, "encoding/binary.littleEndian.Uint32")) == 1
 		c.check(ok32, R, "tl."+fn+" count", f.Pos(), "32-bit little-endian element count", "tl."+fn+" no longer uses a 32-bit little-endian element count")
 	}
+	// element loops run to exactly the count on the wire: the decoder's bound is the decoded 32-bit count
+	// itself (not a clamped copy), the encoder's count is the length of the slice it then iterates
+	if f := c.mustFn(R, "tl", "decodeVector"); f != nil {
+		okv, n := true, 0
+		desc := ""
+		for _, b := range f.Blocks {
+			iff := lastIf(b)
+			if iff == nil || !inLoop(b) {
+				continue
+			}
+			bo, ok := iff.Cond.(*ssa.BinOp)
+			if !ok || bo.Op != token.LSS {
+				continue
+			}
+			if _, isPhi := bo.X.(*ssa.Phi); !isPhi {
+				continue
+			}
+			n++
+			_, root := convChain(bo.Y)
+			cl := callOf(root)
+			if cl == nil || callQName(&cl.Call) != "encoding/binary.littleEndian.Uint32" {
+				okv = false
+				desc = shape(bo.Y, 3)
+			}
+		}
+		c.check(okv && n == 1, R, "tl.decodeVector reads exactly the announced number of elements", f.Pos(), "loop bound = the decoded 32-bit count", "tl.decodeVector's element loop is bounded by "+desc+", not by the element count read from the wire: longer vectors are silently truncated and the rest of the stream is parsed from the wrong offset")
+	}
+	if f := c.mustFn(R, "tl", "encodeVector"); f != nil {
+		okv := false
+		for _, cl := range callsTo(f, "encoding/binary.littleEndian.PutUint32") {
+			_, root := convChain(cl.Call.Args[2])
+			if c2 := callOf(root); c2 != nil && c2.Call.Value.Name() == "Len" {
+				okv = true
+			}
+		}
+		c.check(okv, R, "tl.encodeVector announces the number of elements it writes", f.Pos(), "count = val.Len()", "tl.encodeVector no longer writes val.Len() as the element count")
+	}
 	// constructor tags: 4 bytes, byte-reversed hex on both sides
 	for _, fn := range []string{"encodeTag", "compareWithTag"} {
 		f := c.mustFn(R, "tl", fn)
